@@ -118,7 +118,8 @@ Print Assumptions C16_hold_sync.
    call (Send with flood protection on does contribute one) *)
 Theorem C16_bypass : forall acts s,
   forallb (fun a => negb (is_rate a)) acts = true ->
-  snd (exec s acts) = [] /\ wd (rs (fst (exec s acts))) = wd (rs s).
+  snd (exec s acts) = [] /\ wd (rs (fst (exec s acts))) = wd (rs s) /\
+  lastr (rs (fst (exec s acts))) = lastr (rs s).
 Proof. exact no_rate_no_delay. Qed.
 Print Assumptions C16_bypass.
 
@@ -182,6 +183,29 @@ Theorem C16_allow_flood : forall pieces s t g id,
   wire_events (fst (send_flood true s t g id pieces)) = wire_events s ++ pieces_events g id pieces.
 Proof. exact send_flood_allow. Qed.
 Print Assumptions C16_allow_flood.
+
+(* ---- the limiter state is framed ------------------------------------------------------ *)
+(* The limiter state has two writers: rate (writeDelay, lastRate) and sendLoop (lastWrite).
+   Everything the client does is a schedule of ARate / AEnq / ADeliver — Sends of any
+   goroutine, keep-alives, and the replies that handlers of inbound traffic write (PONG,
+   CAP, AUTHENTICATE) or send (WHO/MODE after JOIN, NICK after a collision).  Over any such
+   schedule with a monotone clock the accumulated delay is at least what it was, plus
+   everything charged, minus the real time elapsed: nothing but the passing of time
+   forgives (C16_bypass: without a rate call writeDelay and lastRate are untouched).
+   ASSUMPTION checked on the implementation by suite rate.inbound and scenario I of
+   rate.wire, not a theorem: the handlers of inbound events have no other access to the
+   limiter state (it is not part of their footprint; the handlers themselves are modelled
+   in Model/State.v without the connection's fields). *)
+Theorem C16_limiter_frame : forall acts now e r0,
+  0 <= wd r0 -> lens_ok acts ->
+  monotone (Z.max (last r0) (lastr r0)) (acts ++ [ARate now e]) ->
+  let s' := fst (exec (sys0 r0) acts) in
+  let T0 := Z.max (last r0) (lastr r0) in
+  wd r0 + charged acts - (Z.max (last (rs s')) (lastr (rs s')) - T0) <= wd (rs s') /\
+  Z.max (last (rs s')) (lastr (rs s')) <= now /\
+  wd r0 - (now - T0) <= wd (rs s').
+Proof. exact limiter_frame. Qed.
+Print Assumptions C16_limiter_frame.
 
 (* ---- order -------------------------------------------------------------------------- *)
 Theorem C16_order : forall g acts s,
